@@ -1,8 +1,10 @@
 """C15 -- geometry export round-trips every cell with its indexes."""
 from __future__ import annotations
 
+import itertools
 import json
 import os
+import pathlib
 
 import shapely
 
@@ -17,7 +19,7 @@ RULE = (
     "cells with polygons, in linear order, identical coordinate sequences; GeoJSON/Shapefile records "
     "carry the linear index and a native index that converts back to the same cell.  Non-trivial: "
     "datasets with holes or with native indexes that carry a grid kind."
-    ' Also: one CF grid above 10^4 (thorough 10^5) cells, SHOC grids whose native index text exceeds 16 characters, datasets across the antimeridian.'
+    ' Also: one CF grid above 10^4 (thorough 10^5) cells, SHOC grids whose native index text exceeds 16 characters, datasets across the antimeridian; every sequence of face sizes in {3,4,5,6}^<=4 (thorough <=5) as a strip of convex faces; coordinates with more than six decimals (near-uniform axes); output named by absolute string, pathlib.Path, bare file name in the current directory, relative path.'
 )
 LEVEL_TEXT = ("every dataset of the family list (holes, multi-kind native indexes, >10 cells) x 4 formats, read back "
               "with independent readers and compared cell by cell with the reference polygons and indexes")
@@ -25,6 +27,24 @@ LEVEL_NOTE = "json / pyshp Reader / shapely WKT-WKB readers are trusted; coordin
 ASSUMPTIONS = ["pyshp's Reader and shapely's WKT/WKB readers are the consumer-side ground truth"]
 
 FORMATS = ('geojson', 'shapefile', 'wkt', 'wkb')
+# how the caller names the output: absolute string, pathlib.Path, bare name in the current directory, relative with a directory
+PATH_FORMS = ('absolute', 'pathlib', 'bare', 'relative')
+# convex lattice polygons by vertex count, each inside [0, 3] x [0, 2]
+CONVEX = {
+    3: [(0, 0), (2, 0), (0, 2)],
+    4: [(0, 0), (2, 0), (2, 2), (0, 2)],
+    5: [(0, 0), (2, 0), (3, 1), (2, 2), (0, 2)],
+    6: [(1, 0), (2, 0), (3, 1), (2, 2), (1, 2), (0, 1)],
+}
+
+
+def strip_mesh(sizes):
+    """Disjoint faces with the given vertex counts, left to right."""
+    nodes, faces = [], []
+    for k, size in enumerate(sizes):
+        faces.append(list(range(len(nodes), len(nodes) + size)))
+        nodes.extend((float(x + 4 * k), float(y)) for x, y in CONVEX[size])
+    return nodes, faces
 
 
 def bounds(tier):
@@ -50,6 +70,19 @@ def cases(tier):
     for spec in big:
         for fmt in ('shapefile', 'geojson'):
             out.append({'spec': spec, 'format': fmt})
+    # every sequence of face sizes in {3,4,5,6}^<=4 (thorough <=5): meshes whose mean size equals the first size, etc.
+    longest = 4 if tier == 'quick' else 5
+    for length in range(1, longest + 1):
+        for sizes in itertools.product((3, 4, 5, 6), repeat=length):
+            nodes, faces = strip_mesh(sizes)
+            spec = {'family': 'ugrid', 'mesh': 'strip-' + ''.join(map(str, sizes)), 'nodes': nodes, 'faces': faces, 'nt': 1, 'nk': 1}
+            for fmt in (FORMATS if length <= 3 else ('geojson',)):
+                out.append({'spec': spec, 'format': fmt})
+    # the way the output file is named
+    for spec in ({'family': 'cf1d', 'ny': 2, 'nx': 3}, {'family': 'ugrid', 'mesh': 'M4'}):
+        for fmt in FORMATS:
+            for form in PATH_FORMS[1:]:
+                out.append({'spec': spec, 'format': fmt, 'path_form': form})
     return out
 
 
@@ -102,20 +135,52 @@ def run_case(case):
             return
         rec.check(back == n, f"{fp}/index-other-cell", f"{label}: index {raw!r} identifies another cell", n, back)
 
-    with env.scratch_dir() as tmp:
+    form = case.get('path_form', 'absolute')
+    if form != 'absolute':
+        rec.nontrivial(('path', form))
+    sizes = {len(p.exterior.coords) for _, p in cells}
+    if len(sizes) > 1:
+        rec.nontrivial('mixed-sizes')
+
+    def target(tmp, name):
+        """(what is passed to the writer, where the file must appear)"""
+        if form == 'pathlib':
+            return pathlib.Path(tmp) / name, os.path.join(tmp, name)
+        if form == 'bare':
+            return name, os.path.join(tmp, name)
+        if form == 'relative':
+            os.makedirs(os.path.join(tmp, 'sub'), exist_ok=True)
+            return os.path.join('sub', name), os.path.join(tmp, 'sub', name)
+        return os.path.join(tmp, name), os.path.join(tmp, name)
+
+    here = os.getcwd()
+    try:
+        with env.scratch_dir() as tmp:
+            if form in ('bare', 'relative'):
+                os.chdir(tmp)
+            _export_and_compare(rec, fp, fmt, ds, truth, cells, check_index, target, tmp)
+    finally:
+        os.chdir(here)
+    rec.outcome([truth.family, fmt, len(cells), len(polys), form, sorted(sizes)])
+    return rec.result()
+
+
+def _export_and_compare(rec, fp, fmt, ds, truth, cells, check_index, target, tmp):
+    from emsarray.operations import geometry
+    if True:
         if fmt == 'geojson':
-            path = os.path.join(tmp, 'out.geojson')
+            argument, path = target(tmp, 'out.geojson')
             try:
-                lib(geometry.write_geojson, ds, path)
+                lib(geometry.write_geojson, ds, argument)
             except LibraryRaised as err:
                 rec.check(False, f"{fp}/raised", "write_geojson raised", 'file', str(err))
-                return rec.result()
+                return
             with open(path) as f:
                 data = json.load(f)
             features = data.get('features', [])
             if not rec.check(data.get('type') == 'FeatureCollection' and len(features) == len(cells),
                              f"{fp}/feature-count", "number of features", len(cells), len(features)):
-                return rec.result()
+                return
             for feature, (n, poly) in zip(features, cells):
                 geom = feature['geometry']
                 coords = [[float(v) for v in c] for c in geom['coordinates'][0]] if geom['type'] == 'Polygon' else None
@@ -126,18 +191,18 @@ def run_case(case):
                 check_index(n, props.get('index'), f"feature for cell {n}")
         elif fmt == 'shapefile':
             import shapefile
-            path = os.path.join(tmp, 'out.shp')
+            argument, path = target(tmp, 'out.shp')
             try:
-                lib(geometry.write_shapefile, ds, path)
+                lib(geometry.write_shapefile, ds, argument)
             except LibraryRaised as err:
                 rec.check(False, f"{fp}/raised", "write_shapefile raised", 'file', str(err))
-                return rec.result()
+                return
             with shapefile.Reader(path) as reader:
                 shapes = reader.shapes()
                 records = [r.as_dict() for r in reader.records()]
             if not rec.check(len(shapes) == len(cells) == len(records), f"{fp}/feature-count", "number of shapes/records",
                              len(cells), [len(shapes), len(records)]):
-                return rec.result()
+                return
             for shape, record, (n, poly) in zip(shapes, records, cells):
                 got = shapely.geometry.shape(shape.__geo_interface__)
                 # the shapefile format stores rings clockwise; the same point set and vertex set is required
@@ -153,13 +218,13 @@ def run_case(case):
                     continue
                 check_index(n, raw_value, f"record for cell {n}")
         else:
-            path = os.path.join(tmp, f'out.{fmt}')
+            argument, path = target(tmp, f'out.{fmt}')
             writer = geometry.write_wkt if fmt == 'wkt' else geometry.write_wkb
             try:
-                lib(writer, ds, path)
+                lib(writer, ds, argument)
             except LibraryRaised as err:
                 rec.check(False, f"{fp}/raised", f"write_{fmt} raised", 'file', str(err))
-                return rec.result()
+                return
             if fmt == 'wkt':
                 with open(path) as f:
                     multi = shapely.from_wkt(f.read())
@@ -168,9 +233,7 @@ def run_case(case):
                     multi = shapely.from_wkb(f.read())
             geoms = list(getattr(multi, 'geoms', [multi]))
             if not rec.check(len(geoms) == len(cells), f"{fp}/feature-count", "number of polygons", len(cells), len(geoms)):
-                return rec.result()
+                return
             for got, (n, poly) in zip(geoms, cells):
                 rec.check(ring_list(got) == ring_list(poly) and len(got.interiors) == 0, f"{fp}/coordinates",
                           f"polygon for cell {n}", ring_list(poly), ring_list(got))
-    rec.outcome([truth.family, fmt, len(cells), len(polys)])
-    return rec.result()
